@@ -327,6 +327,7 @@ class ContractionProcessor:
         "track_flops",
         "flops",
         "flops_limit",
+        "flops_scale",
     )
 
     def __init__(
@@ -372,6 +373,8 @@ class ContractionProcessor:
         self.track_flops = track_flops
         self.flops = 0
         self.flops_limit = flops_limit
+        # constant factor from any removed batch indices
+        self.flops_scale = 1
 
     def copy(self):
         new = ContractionProcessor.__new__(ContractionProcessor)
@@ -385,6 +388,7 @@ class ContractionProcessor:
         new.track_flops = self.track_flops
         new.flops = self.flops
         new.flops_limit = self.flops_limit
+        new.flops_scale = self.flops_scale
         return new
 
     def neighbors(self, i):
@@ -453,7 +457,9 @@ class ContractionProcessor:
         jlegs = self.pop_node(j)
 
         if self.track_flops:
-            self.flops += compute_flops(ilegs, jlegs, self.sizes)
+            self.flops += self.flops_scale * compute_flops(
+                ilegs, jlegs, self.sizes
+            )
 
         if new_legs is None:
             new_legs = compute_contracted(ilegs, jlegs, self.appearances)
@@ -473,6 +479,8 @@ class ContractionProcessor:
                 ix_to_remove.append(ix)
         for ix in ix_to_remove:
             self.remove_ix(ix)
+            # every subsequent contraction still involves this index
+            self.flops_scale *= self.sizes[ix]
 
     def simplify_single_terms(self):
         """Take any diags, reductions and traces of single terms."""
